@@ -452,6 +452,9 @@ class EstimationStep(ExecutionStep):
     def from_dict(cls, d: dict[str, Any]) -> EstimationStep:
         d = dict(d)
         ExecutionStep._adjust_dict(d)
+        for key in ('residuals', 'predictions', 'derivatives'):
+            if key in d:  # JSON has no tuples
+                d[key] = tuple(d[key])
         return cls(**d)
 
     def __repr__(self):
